@@ -430,6 +430,30 @@ def run_vertex_based(case):
             rep.ok(name + ":none")
     elif st != "ni":
         rep.violation("balls", cls, name, "raised:" + st, case, "%s raised %r" % (name, b))
+    # ---- the *_radius accessors are the radii of the balls above: same value, and RuntimeError exactly when the ball raises
+    from .. import e1 as _e1
+
+    for bname in ("minimal_bounding_", "minimal_centered_bounding_", "maximal_bounded_", "maximal_centered_bounded_"):
+        names_rb = [bname + suffix]
+        for nm in names_rb + ["circum" + suffix, "in" + suffix]:
+            if nm in ("circum" + suffix, "in" + suffix) and bname != "minimal_bounding_":
+                continue
+            _e1._reseed()
+            st1, b1 = prop(nm)
+            _e1._reseed()
+            st2, r2 = prop(nm + "_radius")
+            if "ni" in (st1, st2) or st1 == "AttributeError" or st2 == "AttributeError":
+                continue
+            if st1 == "ok" and st2 == "ok":
+                r1 = float(ball_of(b1)[1])
+                if abs(float(r2) - r1) <= 1e-6 * max(r1, 1e-300):
+                    rep.ok(nm + "_radius")
+                else:
+                    rep.violation("balls", cls, nm + "_radius", "differs-from-ball", case, "%s_radius = %r but %s has radius %r" % (nm, float(r2), nm, r1))
+            elif st1 == st2:
+                rep.ok(nm + "_radius:" + st1)
+            else:
+                rep.violation("balls", cls, nm + "_radius", "accessor-and-ball-disagree", case, "%s -> %s but %s_radius -> %s" % (nm, st1, nm, st2 if st2 != "ok" else repr(float(r2))))
     rep.sample({"case": case, "cls": cls, "cyclic": exists, "tangential": tang})
     return rep
 
